@@ -9,7 +9,8 @@ ENV.update(c04.ENV)
 REDIRECTS = ["http://bit.example.com/r?url=http%3A%2F%2Fwww.lemonde.fr%2Fa%2Findex.html", "https://l.example.com/l.php?u=https://fr.example.org/x?utm_source=y",
              "http://example.com/redirect?next=/local/path&k=v", "https://www.google.com/url?q=http://m.example.co.uk/p%3Fa%3D1",
              "http://cdn.ampproject.org/c/s/www.example.com/article.amp"]
-BARE = ["www.lemonde.fr", "fr-FR.facebook.com", "m.example.co.uk", "amp-example.com", "FR.Example.COM", "xn--caf-dma.fr", "mobile.www2.example.org", "es.example.com"]
+BARE = ["www.amp-madame.lefigaro.fr", "amp-www.example.com", "m.amp-example.co.uk", "http://www.amp-example.com/x", "amp.amp-example.com",
+        "www.lemonde.fr", "fr-FR.facebook.com", "m.example.co.uk", "amp-example.com", "FR.Example.COM", "xn--caf-dma.fr", "mobile.www2.example.org", "es.example.com"]
 
 
 def execute(case):
@@ -62,9 +63,8 @@ def run(ctx):
     xs = set()
     for c in c02.gen_cases(ctx, 1) + c04.gen_cases(ctx, 1) + c04.gen_cases(ctx, 1, fp=True):
         xs.add(tuple(c["x"]))
-    if not ctx.quick:
-        for c in c04.gen_cases(ctx, 2, fp=True, bases=c04.SMALLB):
-            xs.add(tuple(c["x"]))
+    for c in c04.gen_cases(ctx, 2, fp=True, bases=ctx.pick("{12, 21}", c04.SMALLB)):
+        xs.add(tuple(c["x"]))
     for s in REDIRECTS + BARE:
         xs.add(tuple(enc(s)))
     cases = [{"x": list(x)} for x in sorted(xs)]
